@@ -28,8 +28,11 @@ def _kernel_pivot_rows(kernel_vectors: np.ndarray) -> np.ndarray:
 def _constrain_matrix(
     mat: sparse.sparray | spmatrix,
     pivot_rows: np.ndarray,
+    pivot_cols: np.ndarray | None = None,
 ) -> sparse.csr_array:
-    """Replace selected equations with x[row] = 0 constraints."""
+    """Replace the equations in `pivot_rows` with x[col] = 0 constraints."""
+    if pivot_cols is None:
+        pivot_cols = pivot_rows
     constrained = sparse.csr_array(mat)
     if pivot_rows.size == 0:
         return constrained
@@ -42,7 +45,7 @@ def _constrain_matrix(
     constrained_coo = constrained.tocoo(copy=False)
     keep = ~pivot_mask[constrained_coo.row]
     rows = np.concatenate((constrained_coo.row[keep], pivot_rows))
-    cols = np.concatenate((constrained_coo.col[keep], pivot_rows))
+    cols = np.concatenate((constrained_coo.col[keep], pivot_cols))
     data = np.concatenate(
         (
             constrained_coo.data[keep],
@@ -106,9 +109,12 @@ def direct_greens_function(
             stacklevel=2,
         )
 
-    pivot_rows = _kernel_pivot_rows(kernel_vectors)
+    # The equations that may be dropped are those where the left kernel has full
+    # rank, the variables that may be pinned those where the right kernel has.
+    pivot_rows = _kernel_pivot_rows(left_kernel_vectors)
+    pivot_cols = _kernel_pivot_rows(kernel_vectors)
     kernel_projector = ComplementProjector(kernel_vectors, left_kernel_vectors)
-    mat = _constrain_matrix(mat, pivot_rows)
+    mat = _constrain_matrix(mat, pivot_rows, pivot_cols)
 
     is_complex = np.iscomplexobj(mat.data)
     try:
